@@ -822,6 +822,126 @@ func c13IndexTargetMachine(furthest bool) *machine {
 	return m
 }
 
+// c13ReusedTargetMachine: one long-lived ShapeIndex distance target (which holds an inner query of its
+// own) handed to a fresh query in every operation: searches with a small distance limit, unlimited
+// searches, Distance and threshold tests in every order.  The answer must be the one a fresh target
+// gives: nothing an earlier query wrote into the target may narrow a later one.
+func c13ReusedTargetMachine(furthest bool) *machine {
+	mkIndex := func() *s2.ShapeIndex {
+		ix := s2.NewShapeIndex()
+		var ll []s2.LatLng
+		for i := 0; i < 40; i++ {
+			ll = append(ll, s2.LatLngFromDegrees(-2+0.7*float64(i), 1+0.55*float64(i)))
+		}
+		ix.Add(s2.PolylineFromLatLngs(ll))
+		pl := s2.Polyline{lattice.LL(11.5, 31), lattice.LL(12, 31.5)}
+		ix.Add(&pl)
+		return ix
+	}
+	mkTargetIndex := func() *s2.ShapeIndex {
+		t := s2.NewShapeIndex()
+		pl := s2.Polyline{lattice.LL(11, 32), lattice.LL(14, 30), lattice.LL(9, 27)}
+		t.Add(&pl)
+		pv := s2.PointVector{lattice.LL(-5, -9)}
+		t.Add(&pv)
+		return t
+	}
+	resStr := func(rs []s2.EdgeQueryResult) string {
+		var s []string
+		for _, r := range rs {
+			s = append(s, fmt.Sprintf("%d/%d@%v", r.ShapeID(), r.EdgeID(), float64(r.Distance())))
+		}
+		return strings.Join(s, ",")
+	}
+	small, big := s1.ChordAngleFromAngle(lattice.Deg(1)), s1.ChordAngleFromAngle(lattice.Deg(25))
+	if furthest {
+		small, big = s1.ChordAngleFromAngle(lattice.Deg(60)), s1.ChordAngleFromAngle(lattice.Deg(5))
+	}
+	type env struct {
+		min *s2.MinDistanceToShapeIndexTarget
+		max *s2.MaxDistanceToShapeIndexTarget
+	}
+	mkEnv := func() *env {
+		return &env{s2.NewMinDistanceToShapeIndexTarget(mkTargetIndex()), s2.NewMaxDistanceToShapeIndexTarget(mkTargetIndex())}
+	}
+	query := func(limited bool, lim s1.ChordAngle) *s2.EdgeQuery {
+		if furthest {
+			o := s2.NewFurthestEdgeQueryOptions().MaxResults(4)
+			if limited {
+				o = o.DistanceLimit(lim)
+			}
+			return s2.NewFurthestEdgeQuery(mkIndex(), o)
+		}
+		o := s2.NewClosestEdgeQueryOptions().MaxResults(4)
+		if limited {
+			o = o.DistanceLimit(lim)
+		}
+		return s2.NewClosestEdgeQuery(mkIndex(), o)
+	}
+	type opT struct {
+		name string
+		f    func(e *env) string
+	}
+	find := func(limited bool, lim s1.ChordAngle) func(e *env) string {
+		return func(e *env) string {
+			if furthest {
+				return resStr(query(limited, lim).FindEdges(e.max))
+			}
+			return resStr(query(limited, lim).FindEdges(e.min))
+		}
+	}
+	ops := []opT{
+		{"FindEdges(target, tight limit)", find(true, small)},
+		{"FindEdges(target, loose limit)", find(true, big)},
+		{"FindEdges(target, no limit)", find(false, 0)},
+		{"Distance(target)", func(e *env) string {
+			if furthest {
+				return fmt.Sprint(float64(query(false, 0).Distance(e.max)))
+			}
+			return fmt.Sprint(float64(query(false, 0).Distance(e.min)))
+		}},
+		{"threshold(target, tight)", func(e *env) string {
+			if furthest {
+				return fmt.Sprint(query(false, 0).IsDistanceGreater(e.max, small))
+			}
+			return fmt.Sprint(query(false, 0).IsDistanceLess(e.min, small))
+		}},
+		{"threshold(target, loose)", func(e *env) string {
+			if furthest {
+				return fmt.Sprint(query(false, 0).IsDistanceGreater(e.max, big))
+			}
+			return fmt.Sprint(query(false, 0).IsDistanceLess(e.min, big))
+		}},
+	}
+	name := "M4-reused-ShapeIndex-target-closest"
+	if furthest {
+		name = "M4-reused-ShapeIndex-target-furthest"
+	}
+	m := &machine{name: name, nOps: len(ops)}
+	m.opStr = func(op int) string { return ops[op].name }
+	exp := map[int]string{}
+	m.run = func(hist []int) (string, string, string) {
+		e := mkEnv()
+		bad, obs := "", ""
+		for i, o := range hist {
+			got := ops[o].f(e)
+			if i == len(hist)-1 {
+				x, ok := exp[o]
+				if !ok {
+					x = ops[o].f(mkEnv())
+					exp[o] = x
+				}
+				obs = got
+				if got != x {
+					bad = fmt.Sprintf("%s with a target object that earlier queries used returned [%s]; with a fresh target object it returns [%s]", ops[o].name, trunc(got, 120), trunc(x, 120))
+				}
+			}
+		}
+		return "", bad, obs
+	}
+	return m
+}
+
 // c13ResetMachine: one long-lived EdgeQuery on an index that grows.  EdgeQuery.Reset is the documented
 // step after modifying the index, so the legal histories are: queries, then (Add ...; Reset), then
 // queries again.  The index is above the brute-force threshold and its top-level covering changes
@@ -1129,6 +1249,8 @@ func c13Jobs(c *core.Ctx) []c13Job {
 		c13Job{false, c13SmallIndexQueriesMachine(), core.Pick(c, 3, 4)},
 		c13Job{false, c13IndexTargetMachine(false), core.Pick(c, 3, 5)},
 		c13Job{false, c13IndexTargetMachine(true), core.Pick(c, 3, 5)},
+		c13Job{false, c13ReusedTargetMachine(false), core.Pick(c, 3, 4)},
+		c13Job{false, c13ReusedTargetMachine(true), core.Pick(c, 3, 4)},
 		c13Job{false, c13ResetMachine(), core.Pick(c, 5, 7)})
 	return jobs
 }
@@ -1160,7 +1282,7 @@ func c13JobWorker(args []string) int {
 }
 
 func c13Machines() []*machine {
-	ms := []*machine{c13IndexMachine(), c13QueryMachine(false), c13QueryMachine(true), c13OtherQueriesMachine(), c13SmallIndexQueriesMachine(), c13IndexTargetMachine(false), c13IndexTargetMachine(true), c13ResetMachine()}
+	ms := []*machine{c13IndexMachine(), c13QueryMachine(false), c13QueryMachine(true), c13OtherQueriesMachine(), c13SmallIndexQueriesMachine(), c13IndexTargetMachine(false), c13IndexTargetMachine(true), c13ReusedTargetMachine(false), c13ReusedTargetMachine(true), c13ResetMachine()}
 	for _, nv := range []int{8, 40, 100} {
 		ms = append(ms, c13LoopMachine(nv))
 	}
